@@ -38,6 +38,11 @@ pub trait WitnessWrite<F: Field> {
     where
         F: RichField,
     {
+        if ct.0.len() != value.0.len() {
+            return Err(anyhow!(
+                "cap target length differs from the length of the cap"
+            ));
+        }
         for (ht, h) in ct.0.iter().zip(&value.0) {
             self.set_hash_target(*ht, *h)?;
         }
@@ -72,7 +77,11 @@ pub trait WitnessWrite<F: Field> {
     where
         F: RichField + Extendable<D>,
     {
-        debug_assert_eq!(ets.len(), values.len());
+        if ets.len() != values.len() {
+            return Err(anyhow!(
+                "number of extension targets differs from the number of values"
+            ));
+        }
         for (&et, &v) in zip(ets, values) {
             self.set_extension_target(et, v)?;
         }
@@ -128,6 +137,24 @@ pub trait WitnessWrite<F: Field> {
             &proof.plonk_zs_partial_products_cap,
         )?;
         self.set_cap_target(&proof_target.quotient_polys_cap, &proof.quotient_polys_cap)?;
+
+        // The openings are set batch by batch below: check each vector on its own, so that a
+        // proof whose openings are grouped differently is not assigned as if it were well-formed.
+        let (ot, o) = (&proof_target.openings, &proof.openings);
+        if ot.constants.len() != o.constants.len()
+            || ot.plonk_sigmas.len() != o.plonk_sigmas.len()
+            || ot.wires.len() != o.wires.len()
+            || ot.plonk_zs.len() != o.plonk_zs.len()
+            || ot.plonk_zs_next.len() != o.plonk_zs_next.len()
+            || ot.partial_products.len() != o.partial_products.len()
+            || ot.quotient_polys.len() != o.quotient_polys.len()
+            || ot.lookup_zs.len() != o.lookup_zs.len()
+            || ot.next_lookup_zs.len() != o.lookup_zs_next.len()
+        {
+            return Err(anyhow!(
+                "opening set target lengths differ from the proof's opening set"
+            ));
+        }
 
         self.set_fri_openings(
             &proof_target.openings.to_fri_openings(),
